@@ -164,15 +164,31 @@ func isSnapshotOperation(op *model.Operation) bool {
 }
 
 func (its *WiredDatatype) excludeDuplicatedOperations(ppp *model.PushPullPack) {
+	if ppp.GetPushPullPackOption().HasSubscribeBit() {
+		return // a subscriber takes the whole log as it is
+	}
 	pulled := its.calculatePullingOperations(ppp.CheckPoint)
-	if len(ppp.Operations) > pulled {
-		// for example, if len(ppp.Operations) == 5: o_1 o_2 o_3 o_4 o_5 are received, and
+	if pulled < 0 { // a response that is older than the current checkpoint brings nothing new
+		pulled = 0
+	}
+	// `pulled` counts the operations of OTHER clients beyond the current checkpoint. The pulled list
+	// can also contain this client's own operations (pushed earlier, response lost): they were applied
+	// locally already and must neither be applied again nor be counted.
+	others := make([]*model.Operation, 0, len(ppp.Operations))
+	for _, op := range ppp.Operations {
+		if op.ID.GetCUID() != its.opID.CUID {
+			others = append(others, op)
+		}
+	}
+	if len(others) > pulled {
+		// for example, if others == o_1 o_2 o_3 o_4 o_5 are received, and
 		// if `pulled` == 3, o_1 and o_2 were already received,
 		// o_1 and o_2 should be skipped
-		skip := len(ppp.Operations) - pulled
-		ppp.Operations = ppp.Operations[skip:]
+		skip := len(others) - pulled
+		others = others[skip:]
 		its.L().Infof("skip %d operations", skip)
 	}
+	ppp.Operations = others
 }
 
 func (its *WiredDatatype) syncCheckPoint(newCheckPoint *model.CheckPoint) {
